@@ -180,6 +180,12 @@ class ObjModel:
             raise TypeError("%s object is not callable" % self.__dict__["_cls"].name)
         return self.__dict__["_interp"].call_funcinfo(m, self, a, kw)
 
+    def __getstate__(self):
+        m = self._special("__getstate__")
+        if m is not None:
+            return self.__dict__["_interp"].call_funcinfo(m, self, (), {})
+        raise TypeError("interpreted class %s defines no __getstate__" % self.__dict__["_cls"].name)
+
     def __reduce__(self):
         m = self._special("__reduce__")
         if m is not None:
